@@ -41,6 +41,11 @@ var sourceSpellings = map[string]string{
 	"my-org/thing":            "github.com/my-org/thing-buildkite-plugin",
 	"artifacts#v1.9.0":        "github.com/buildkite-plugins/artifacts-buildkite-plugin#v1.9.0",
 	"ecr#v2.7.0":              "github.com/buildkite-plugins/ecr-buildkite-plugin#v2.7.0",
+	// refs may contain slashes (git-legal refs over [A-Za-z0-9._/-])
+	"docker#feature/cache-mounts": "github.com/buildkite-plugins/docker-buildkite-plugin#feature/cache-mounts",
+	"my-org/thing#release/2.x":    "github.com/my-org/thing-buildkite-plugin#release/2.x",
+	"cache#v1.0.0-rc.1":           "github.com/buildkite-plugins/cache-buildkite-plugin#v1.0.0-rc.1",
+	"monorepo-diff#refs/tags/v1":  "github.com/buildkite-plugins/monorepo-diff-buildkite-plugin#refs/tags/v1",
 }
 
 func signPayloads(c *engine.Ctx, pl *pipeline.Pipeline, kp *keyPair, repoURL string) ([][]byte, error) {
